@@ -31,4 +31,8 @@ fi
 [ "$tier" = build ] && exit 0
 ulimit -v 40000000 2>/dev/null
 cd /verif
-exec "$bin" "$tier" "$@"
+hard=900; [ "$tier" = thorough ] && hard=5400
+timeout -k 10 ${VERIF_HARD_TIMEOUT:-$hard} "$bin" "$tier" "$@"
+rc=$?
+if [ $rc -eq 124 ] || [ $rc -eq 137 ]; then echo "ENGINE-ERROR: $id exceeded the hard wall-clock limit of ${VERIF_HARD_TIMEOUT:-$hard}s and was stopped"; pkill -f "^$bin" 2>/dev/null; exit 2; fi
+exit $rc
